@@ -11,8 +11,8 @@ import (
 
 	"github.com/hyperjumptech/grule-rule-engine/ast"
 	"github.com/hyperjumptech/grule-rule-engine/engine"
-	verif "github.com/hyperjumptech/grule-rule-engine/zzverif"
 	"github.com/hyperjumptech/grule-rule-engine/zzkb"
+	verif "github.com/hyperjumptech/grule-rule-engine/zzverif"
 )
 
 var c20JSONFacts = []string{
